@@ -47,6 +47,7 @@ func main() {
 		"C05":      {Gen: gen, Run: run},
 		"C05parse": {Gen: genParse, Run: runParse},
 		"C05sess":  {Gen: genSess, Run: runSess},
+		"C05race":  {Gen: genRace, Run: run},
 	})
 }
 
@@ -260,6 +261,33 @@ func perPart(g *GenCtx) *Rng {
 	return g.R
 }
 
+// genRaceRounds: concurrent use of one grant - many rounds of "store a grant (sometimes two), race n
+// logins for it".  Whatever the interleaving exactly one login gets the grants.
+func genRaceRounds(g *GenCtx, r *Rng, rounds int) {
+	k0 := bytes.Repeat([]byte{7}, 32)
+	g.Op("new 0 1")
+	g.Op("raceuse %s %x 4", hx("alice"), k0)
+	for i := 1; i <= rounds; i++ {
+		g.Op("addgrant %s %x %d", hx("alice"), k0, i)
+		if i%7 == 0 {
+			g.Op("addgrant %s %x %d", hx("alice"), k0, rounds+i)
+		}
+		g.Op("raceuse %s %x %d", hx("alice"), k0, Pick(r, []int{2, 4, 8, 8, 16}))
+	}
+	g.Op("new 0 0")
+	g.Op("raceuse %s %x 4", hx("alice"), k0)
+}
+
+// suite C05race (run by C05's and by C07's check): only the races
+func genRace(g *GenCtx) {
+	r := perPart(g)
+	rounds := 2500
+	if g.Thorough() {
+		rounds = 80000 / g.Parts
+	}
+	genRaceRounds(g, r, rounds)
+}
+
 func genHist(g *GenCtx, nQuick, nThorough int) {
 	r := perPart(g)
 	// corpus: the smallest fail-open inputs
@@ -270,6 +298,7 @@ func genHist(g *GenCtx, nQuick, nThorough int) {
 		g.Op("authkey %s %x", hx("alice"), k0)
 		g.Op("login %s %x", hx("alice"), k0)
 	}
+	genRaceRounds(g, r, 300)
 	n := nQuick
 	maxLines := 8
 	if g.Thorough() {
@@ -674,6 +703,47 @@ func runWith(in *bufio.Scanner, out *bufio.Writer, session bool) {
 					return "err"
 				}
 				return "ok " + grantIDs(ags)
+			})
+		case len(f) == 4 && f[0] == "raceuse":
+			// n concurrent logins with the same delegate key for the same user: whatever the
+			// interleaving, the stored grants go to exactly one of them (the others are refused)
+			u, ok := Unhex(f[1])
+			k, ok2 := key32(f[2])
+			n, err := strconv.Atoi(f[3])
+			if !ok || !ok2 || err != nil || n < 2 || n > 64 {
+				break
+			}
+			res = Guard(func() string {
+				var start, done sync.WaitGroup
+				start.Add(1)
+				got := make([][]authgrants.Authgrant, n)
+				won := make([]bool, n)
+				for i := 0; i < n; i++ {
+					done.Add(1)
+					go func(i int) {
+						defer done.Done()
+						start.Wait()
+						ags, err := w.srv.AuthorizeKeyAuthGrant(string(u), k)
+						got[i], won[i] = ags, err == nil
+					}(i)
+				}
+				start.Done()
+				done.Wait()
+				wins := 0
+				var all []string
+				for i := range got {
+					if won[i] {
+						wins++
+						for _, a := range got[i] {
+							all = append(all, a.AssociatedData.CommandGrantData.Cmd)
+						}
+					}
+				}
+				if wins == 0 {
+					return "wins=0 -"
+				}
+				// the single winner's grants in the order it got them; several winners: all of them
+				return fmt.Sprintf("wins=%d %s", wins, strings.Join(all, ","))
 			})
 		case len(f) == 3 && f[0] == "login":
 			u, ok := Unhex(f[1])
